@@ -1338,7 +1338,7 @@ def with_malformed(run, kinds):
 reg("C13", ["Props.C13_pulled_debug_has_inputs", "Props.C13_flag_off_no_debug", "Props.C13_debug_nodes_never_influence", "Props.C12_selection_is_closure"],
     with_malformed(run_G, ["normal-on-debug"]), ASSUME_G)
 reg("C11", ["Props.C11_setup_at_most_once", "Props.C11_first_value_kept", "VM.not_entered_of_res", "Props.C11_runs_only_what_selection_needs", "Props.C11_later_executions_see_first_value",
-            "Props.C11_kept_executors", "Props.C11_kept_executor_sees_current_setup"], with_malformed(run_H, ["setup-on-normal", "setup-on-arg"]), ASSUME_H)
+            "Props.C11_kept_executors", "Props.C11_kept_executor_sees_current_setup", "Props.C11_setup_value_independent_of_arguments"], with_malformed(run_H, ["setup-on-normal", "setup-on-arg"]), ASSUME_H)
 def run_H_and_composeprobe(pid, tier, seed):
     cov, fs, _ = run_H(pid, tier, seed)
     covc, fsc, _ = run_C(pid, tier, seed)
@@ -1369,7 +1369,8 @@ def run_V_and_composed_flags(pid, tier, seed):
 PROPS["C10"]["run"] = run_V_and_composed_flags
 
 reg("C15", ["Props.C15_no_state_but_setup", "Props.C15_next_call_depends_only_on_setup_state", "Props.C15_failed_operation_is_a_noop", "VM.applyOp_res_nonsetup", "Props.C01_core",
-            "Props.C15_executor_single_use", "Props.C15_executor_run_is_complete", "Props.C15_executor_no_state_but_setup"], run_H_and_composeprobe, ASSUME_H)
+            "Props.C15_executor_single_use", "Props.C15_executor_run_is_complete", "Props.C15_executor_no_state_but_setup",
+            "Props.C15_call_after_history_is_fresh", "Props.C11_setup_value_independent_of_arguments"], run_H_and_composeprobe, ASSUME_H)
 reg("C18", ["Props.C18_restart_same", "Props.C18_restart_runs_only_uncached", "VM.denote_seeded", "Props.C18_cache_roundtrip"], run_H, ASSUME_H)
 
 
